@@ -15,7 +15,7 @@ MODULE = "DaliVerif.Props.C02"
 EXES = ["m_cmd"]
 GEN = True
 # tie by translation (DESIGN.md II.8): the frame-assembling constructors of 276 command classes and dali/address.py
-TIE_MODULES = ["DaliVerif.Tie.Command", "DaliVerif.Tie.Address", "DaliVerif.Tie.Event", "DaliVerif.Tie.Special"]
+TIE_MODULES = ["DaliVerif.Tie.Command", "DaliVerif.Tie.Address", "DaliVerif.Tie.Event", "DaliVerif.Tie.Special", "DaliVerif.Tie.RoundTrip"]
 TIE_THEOREMS = ["Tie.Command.%s" % n for n in
                 ("stdNoParam_tie", "stdParam_tie", "dapc_tie", "devStd_tie", "devInst_tie",
                  "std_rows_traced", "dev_rows_traced", "inst_rows_traced")] + \
@@ -25,7 +25,10 @@ TIE_THEOREMS = ["Tie.Command.%s" % n for n in
                 ("specialParam_tie", "specialNoParam_tie", "shortSpecial_tie", "shortSpecialMask_tie",
                  "initialiseAddr_tie", "initialiseBroadcastAddr_tie", "initialiseBroadcast_tie",
                  "initialiseUnaddressed_tie", "special_rows_traced", "devSpecial0_tie", "devSpecial1_tie",
-                 "devSpecial2_tie", "devSpecial_rows_traced")]
+                 "devSpecial2_tie", "devSpecial_rows_traced")] + \
+               ["Tie.RoundTrip.%s_roundtrip" % n for n in
+                ("specialParam", "specialNoParam", "shortSpecial", "shortSpecialMask", "initialiseAddr",
+                 "initialiseBroadcast", "initialiseUnaddressed", "devSpecial0", "devSpecial1", "devSpecial2")]
 THEOREMS = ["tables_ok2", "decode_construct", "decode_construct_gen", "render_preserved", "no_shared_frame",
             "std_param_rejected", "std_arity_rejected", "destination_rejected", "wrong_kind_rejected",
             "byte_param_rejected", "slice_write_rejects", "std_accepted_is_legal", "dapc_accepted_is_legal",
